@@ -56,7 +56,8 @@ def run(tier, seed):
                                 exp = [0] * (size - hop) if False else exp
                             # with no block at all the memory (zeros) tail is still flushed: m*h+size-h samples of zero
                             if m == 0:
-                                return len(got) in (0, size - hop) and all(same(v, 0) for v in got), "no blocks: got %r" % (got,)
+                                # statement: exactly m*h + size - h samples, also for m == 0 (the zero memory is flushed)
+                                return len(got) == size - hop and all(same(v, 0) for v in got), "no blocks: %d samples %r, statement says exactly size-hop = %d zeros" % (len(got), got, size - hop)
                             return seq_eq(got, exp), "overlap_add.list(size=%d, hop=%d, wnd=%s/%s, normalize=%r, %d blocks): %d samples, statement gives %d; first differing sample %r" % (
                                 size, hop, None if wnd is None else [str(v) for v in wnd], wkind, normalize, m, len(got), len(exp),
                                 next(((i, str(a), str(b)) for i, (a, b) in enumerate(zip(got, exp)) if not close(a, b)), None))
@@ -119,6 +120,18 @@ def run(tier, seed):
             return seq_eq(b, ola_model(blocks, size, hop, olaw, False)) and seq_eq(a, ola_model([[2 * v for v in bk] for bk in blocks], size, hop, olaw, False)), \
                 "a processor derived from a partial stft object got options given to an earlier sibling"
         R.guard("stft-partial-objects-do-not-leak-options-between-derivations", {"size": size, "hop": hop}, twice)
+    def custom_ola():
+        seen = {}
+
+        def my_ola(blk_sig, **kw):
+            seen.update(kw)
+            return overlap_add.list(blk_sig, size=kw["size"], hop=kw["hop"], normalize=False)
+        x = [Sym.var("x%d" % i) for i in range(6)]
+        out = list(stft(ident, size=2, hop=2, transform=None, inverse_transform=None, before=None, after=None, ola=my_ola,
+                        ola_alpha=1, ola__private=2, ola_order=3, ola_lambda_=4, ola_ola_x=5)(list(x)))
+        want = {"size": 2, "hop": 2, "alpha": 1, "_private": 2, "order": 3, "lambda_": 4, "ola_x": 5}
+        return seen == want and seq_eq(out, x), "a user-defined overlap-add strategy received the options %r, expected %r" % (seen, want)
+    R.guard("stft-passes-ola_-options-with-exactly-the-prefix-stripped", {}, custom_ola)
     R.guard("stft-unknown-keyword-refused", {}, lambda: (_raises(lambda: list(stft(ident, size=2, transform=None, inverse_transform=None, before=None, after=None, ola=overlap_add.list, foo=1)([1, 2])), "TypeError"), "unknown keyword must raise TypeError"))
     R.guard("stft-hop>size-refused", {}, lambda: (_raises(lambda: list(stft(ident, size=2, hop=3, transform=None, inverse_transform=None, before=None, after=None, ola=overlap_add.list)([1, 2])), "ValueError"), "hop > size must raise ValueError"))
     return R.result("sizes <= 6, hop <= size (12 pairs), 0..4 blocks of symbolic samples, windows none/list/callable/generator with rational values, normalize on/off; STFT identity wrapper in 4 calling styles")
